@@ -1,0 +1,15 @@
+//go:build verif
+
+package s2
+
+// VerifSchedHook, when non-nil, is called at the schedule points of
+// ShapeIndex.maybeApplyUpdates with the index and a label. The verification
+// harness installs a gate that blocks the calling goroutine until its replay
+// scheduler grants the step. It is nil unless a harness sets it.
+var VerifSchedHook func(s *ShapeIndex, label string)
+
+func verifSched(s *ShapeIndex, label string) {
+	if h := VerifSchedHook; h != nil {
+		h(s, label)
+	}
+}
